@@ -8,7 +8,8 @@ PROP = 'C03'
 LEAN_TARGETS = ['Props.C03']
 REQUIRED_THEOREMS = ['Props.C03.postorder_topological', 'Props.C03.each_fn_once', 'Props.C03.backward_completes',
                      'Props.C03.chain_rule_any_dag', 'Props.C03.optable_wellformed', 'Props.C03.code_loop_is_recursive_traversal']
-RULE = ('random DAG programs over the basic op catalogue (add, mul, neg, clone, pow, sum, mean, reshape, transpose, movedim, '
+RULE = ('every op of the catalogue (tensor and nn ops) inside a fan-out graph: its first operand is an interior tensor with a second consumer created before or after it; '
+        'random DAG programs over the basic op catalogue (add, mul, neg, clone, pow, sum, mean, reshape, transpose, movedim, '
         'flatten, slice, unbind, stack, concat, matmul, squeeze, unsqueeze): 2-4 leaves of mixed requires_grad, up to 14 ops '
         '(quick) / 40 (thorough), results reused by later ops (fan-out), x op x, multi-output unbind, non-uniform upstream '
         'gradient; compared: every tensor value, flags, the engine trace (zero-inits and grad_fn calls in order), every '
@@ -22,6 +23,40 @@ TRUSTED_BASE = ['harness/tprog.py, harness/gen_dag.py (generator, executor, cano
 def extract():
     import extract as ex
     return ex.write_optable()
+
+
+def fanout_case(rng, op):
+    """ANY op of the catalogue (tensor ops and nn ops, arguments from the per-op generators) inside a graph in which its first
+    operand is an INTERIOR tensor with a second consumer, created before or after the op, so that the two backward functions
+    accumulate into the same non-leaf buffer in either order; the root is the weighted total of all sinks"""
+    import gen_ops
+    gen = gen_ops.gen_basic if op in gen_ops.OPS_BASIC else gen_ops.gen_nn
+    leaves, args = gen(rng, op, False)
+    P = gen_dag.Prog()
+    for lf in leaves:
+        P.add_leaf(lf[0], lf[1], lf[2] if len(lf) > 2 else True, lf[3] if len(lf) > 3 else 'f64')
+    nl = len(leaves)
+    h = P.add_op('clone', [0], [], [leaves[0][0]])[0]
+    first = rng.chance(.5)
+    if first:
+        P.add_op(rng.pick(['neg', 'self2']) if False else 'neg', [h], [], [leaves[0][0]])
+    # output shapes of the op: ask the implementation
+    lines, _ = P.lines()
+    opline = ' '.join(['t op', op, show_ints([h] + list(range(1, nl)))] + [str(a) for a in args])
+    io = tprog.run_program(lines + [opline])
+    if io[-1] in ('rejected', 'hidden') or not io[-1].startswith('t'):
+        return None
+    nout = len(io[-1].split(','))
+    base = len(P.tshape)
+    shp = tprog.run_program(lines + [opline] + [f't val {base + k}' for k in range(nout)])[-nout:]
+    shapes = [tuple(common.parse_ints(s_.split('|')[0])) if '|' in s_ else () for s_ in shp]
+    P.add_op(op, [h] + list(range(1, nl)), args, shapes)
+    if not first:
+        P.add_op('neg', [h], [], [leaves[0][0]])
+    weighted_total(rng, P)
+    c = finish_case(rng, P)
+    c['fanout_op'] = op
+    return c
 
 
 def build_case(rng, tier):
@@ -82,6 +117,17 @@ def cases(rng, tier):
         c = build_case(rng, tier)
         c['order'] = c['P'].topo_shuffle(rng)
         out.append(c)
+    import gen_ops
+    for op in gen_ops.OPS_BASIC + gen_ops.OPS_NN:
+        if op in ('max', 'min', 'max_pool1d', 'max_pool2d'): continue        # ties after clone are the subject of C01 / C02
+        for _ in range(2 if tier == 'quick' else 40):
+            try:
+                c = fanout_case(rng, op)
+            except Exception:
+                c = None
+            if c:
+                c['order'] = c['P'].topo_shuffle(rng)
+                out.append(c)
     # corpus: diamond, repeated operand, unbind outputs consumed separately, non-differentiable branch
     for spec in CORPUS:
         P = gen_dag.Prog()
